@@ -70,6 +70,7 @@ Level1 ==
   /\ c' \in 0..1
   /\ CASE Family = "castle" -> k' \in (1..64) \ (IF c' = 0 THEN {5, 1, 8} ELSE {61, 57, 64})
        [] Family = "rookcap" -> k' \in (1..64) \ (IF c' = 1 THEN {5, 1, 8} ELSE {61, 57, 64})   \* capturer's king
+       [] Family = "terminal" -> k' \in 1..64    \* strong side's king
        [] Family = "ep" -> k' \in 1..8           \* file of the capturing pawn
        [] Family = "promo" -> k' \in 1..8        \* file of the pawn
        [] OTHER -> k' = 0
@@ -88,6 +89,11 @@ Level2 ==
               /\ sq \notin ({k} \cup (IF c = 1 THEN {5, 1, 8} ELSE {61, 57, 64}))
               /\ pos' = RookCapMember(c, k, pc, sq)
               /\ idx' = 64 * pc + sq
+       [] Family = "terminal" ->
+            \* king + queen / rook (colour c) against the bare king, the bare king to move: which placements are finished games
+            \E pc \in {Q, R} : \E sq \in (1..64) \ {k} : \E wk \in (1..64) \ {k, sq} :
+              /\ pos' = [b |-> Place(Place(Place(Empty, k, Pc(c, K)), sq, Pc(c, pc)), wk, Pc(1 - c, K)), stm |-> 1 - c, cr |-> {}, ep |-> 0]
+              /\ idx' = pc + 8 * sq + 512 * wk
        [] Family = "ep" ->
             \E vf \in {k - 1, k + 1} \cap (1..8) : \E ok \in 1..64 : \E pc \in {0, Q, R, B} : \E sq \in 1..64 :
               LET r == EpRank(c)  cap == Sq(k, r)  vic == Sq(vf, r)  tgt == IF c = 0 THEN vic + 8 ELSE vic - 8
@@ -124,4 +130,8 @@ Then(p) == LET S == {m \in Legal(p) : m[2] \in {1, 8, 57, 64} \/ IsCastle(p, m) 
 Emit == (stage = 2 /\ Kept /\ Cardinality(Kings(pos.b, 0)) = 1 /\ Cardinality(Kings(pos.b, 1)) = 1 /\ WellFormed(pos)) =>
           PrintT(<<"FAM", ToJson([pos |-> Encode(pos), legal |-> Legal(pos), caps |-> LegalCaptures(pos),
                                   chk |-> <<InCheck(pos.b, 0), InCheck(pos.b, 1)>>, then |-> Then(pos)])>>)
+\* finished games only: checkmates and stalemates of K+Q / K+R against K, printed as FEN (sessions of the real binary are
+\* run on every one of them: a go must be answered with the null move)
+EmitTerminal == (stage = 2 /\ Kept /\ Cardinality(Kings(pos.b, 0)) = 1 /\ Cardinality(Kings(pos.b, 1)) = 1 /\ WellFormed(pos) /\ Legal(pos) = {}) =>
+                  PrintT(<<"TERM", ToFen(pos, 0, 1), InCheck(pos.b, pos.stm)>>)
 =============================================================================
